@@ -1,0 +1,112 @@
+//go:build verif
+
+package mimetype
+
+import (
+	"github.com/gabriel-vasile/mimetype/internal/charset"
+	ijson "github.com/gabriel-vasile/mimetype/internal/json"
+	"github.com/gabriel-vasile/mimetype/internal/magic"
+)
+
+// This file is compiled only with the "verif" build tag. It exposes read-only
+// views of the detector tree and a few internal functions to an external
+// verification harness. Nothing here is reachable from a normal build.
+
+// VerifNode is a snapshot of one node of the detector tree.
+type VerifNode struct {
+	ID       int
+	MIME     string
+	Ext      string
+	Aliases  []string
+	AliasCap int
+	Parent   int // -1 for the root
+	Children []int
+	Detector func(raw []byte, limit uint32) bool
+}
+
+var verifInitChildren = map[*MIME][]*MIME{}
+
+func init() {
+	for _, n := range root.flatten() {
+		verifInitChildren[n] = append([]*MIME(nil), n.children...)
+	}
+}
+
+// VerifSnapshot returns the tree in depth-first pre-order.
+func VerifSnapshot() []VerifNode {
+	mu.RLock()
+	defer mu.RUnlock()
+	var out []VerifNode
+	var walk func(m *MIME, parent int) int
+	walk = func(m *MIME, parent int) int {
+		id := len(out)
+		out = append(out, VerifNode{
+			ID: id, MIME: m.mime, Ext: m.extension,
+			Aliases: append([]string(nil), m.aliases...), AliasCap: cap(m.aliases),
+			Parent: parent, Detector: m.detector,
+		})
+		for _, c := range m.children {
+			cid := walk(c, id)
+			out[id].Children = append(out[id].Children, cid)
+		}
+		return id
+	}
+	walk(root, -1)
+	return out
+}
+
+// VerifInstrument replaces every detector d of the tree (pre-order id) by
+// wrap(id, d) and returns a function restoring the originals.
+func VerifInstrument(wrap func(id int, d func([]byte, uint32) bool) func([]byte, uint32) bool) (restore func()) {
+	mu.Lock()
+	defer mu.Unlock()
+	nodes := root.flatten()
+	orig := make([]magic.Detector, len(nodes))
+	for i, n := range nodes {
+		orig[i] = n.detector
+		n.detector = wrap(i, n.detector)
+	}
+	return func() {
+		mu.Lock()
+		defer mu.Unlock()
+		for i, n := range nodes {
+			n.detector = orig[i]
+		}
+	}
+}
+
+// VerifResetTree drops every extension registered since package init.
+func VerifResetTree() {
+	mu.Lock()
+	defer mu.Unlock()
+	for n, ch := range verifInitChildren {
+		n.children = append([]*MIME(nil), ch...)
+	}
+}
+
+// VerifMatch runs the tree walk on in with the given limit, without cutting in.
+func VerifMatch(in []byte, limit uint32) *MIME {
+	mu.RLock()
+	defer mu.RUnlock()
+	return root.match(in, limit)
+}
+
+// Re-exports of internal functions.
+var (
+	VerifJSONParse    = ijson.Parse
+	VerifJSONPoolPeek = ijson.VerifPoolPeek
+	VerifFromPlain    = charset.FromPlain
+	VerifFromHTML     = charset.FromHTML
+	VerifFromXML      = charset.FromXML
+	VerifFromBOM      = charset.FromBOM
+)
+
+// VerifMagic returns selected signature checks by name.
+func VerifMagic() map[string]func([]byte, uint32) bool {
+	return map[string]func([]byte, uint32) bool{
+		"JSON": magic.JSON, "GeoJSON": magic.GeoJSON, "HAR": magic.HAR, "GLTF": magic.GLTF,
+		"NdJSON": magic.NdJSON, "Csv": magic.Csv, "Tsv": magic.Tsv, "Text": magic.Text,
+		"Tar": magic.Tar, "Zip": magic.Zip, "Jar": magic.Jar, "APK": magic.APK,
+		"Xlsx": magic.Xlsx, "Docx": magic.Docx, "Pptx": magic.Pptx, "HTML": magic.HTML, "XML": magic.XML,
+	}
+}
